@@ -169,6 +169,12 @@ theorem believes_enter {w : Width} (th : Thread w) : (enter th).believes = none 
   | nil => simp [Thread.believes, h]
   | cons o rest => cases o <;> simp [Thread.believes, h, startPc]
 
+theorem rax_enter {w : Width} (th : Thread w) : (enter th).rax = th.rax := by
+  unfold enter
+  cases h : th.todo with
+  | nil => rfl
+  | cons o rest => cases o <;> rfl
+
 theorem pendingOps_enter {w : Width} (th : Thread w) : (enter th).pendingOps = th.todo := by
   simp [Thread.pendingOps, pendingRes_enter, todo_enter]
 
@@ -178,6 +184,8 @@ theorem pendingOps_enter {w : Width} (th : Thread w) : (enter th).pendingOps = t
   simp [finish, todo_enter]
 @[simp] theorem results_finish {w : Width} (th : Thread w) (r : Result w) : (finish th r).results = th.results ++ [r] := by
   simp [finish, results_enter]
+@[simp] theorem rax_finish {w : Width} (th : Thread w) (r : Result w) : (finish th r).rax = th.rax := by
+  simp [finish, rax_enter]
 @[simp] theorem believes_finish {w : Width} (th : Thread w) (r : Result w) : (finish th r).believes = none :=
   believes_enter _
 @[simp] theorem pendingOps_finish {w : Width} (th : Thread w) (r : Result w) : (finish th r).pendingOps = th.todo.tail := by
@@ -511,37 +519,41 @@ theorem commits_perm {w : Width} {init : Word w} {progs : List (List (Oper w))} 
 
 /-! ### a sequential history determines the object's value -/
 
-theorem replay_foldl {w : Width} (init : Word w) : ∀ (log : List (Event w)) (c : Word w),
+theorem foldl_applyEv_none {w : Width} (l : List (Event w)) : l.foldl applyEv none = none := by
+  induction l with
+  | nil => rfl
+  | cons e l ih =>
+    simp only [List.foldl_cons]
+    have : applyEv none e = none := by
+      cases hk : e.kind <;> simp [applyEv, hk]
+    rw [this, ih]
+
+theorem replay_foldl {w : Width} : ∀ (log : List (Event w)) (init c : Word w),
     replay init log = some c → c = ((commits log).map (·.2.1)).foldl applyOp init := by
   intro log
-  induction log using List.reverseRecOn with
-  | nil => intro c h; simp [replay] at h; simp [commits, h]
-  | append_singleton l e ih =>
-    intro c h
-    rw [replay_append] at h
+  induction log with
+  | nil => intro init c h; simp [replay] at h; simp [commits, h]
+  | cons e l ih =>
+    intro init c h
+    simp only [replay, List.foldl_cons] at h
     cases hk : e.kind with
     | read =>
       simp only [applyEv, hk] at h
-      have := ih c h
-      simp [commits, List.filterMap_append, hk] at this ⊢
-      exact this
+      have := ih init c h
+      simpa [commits, hk] using this
     | commit o r =>
       simp only [applyEv, hk] at h
-      cases hr : replay init l with
-      | none => simp [hr] at h
-      | some c0 =>
-        have h0 := ih c0 hr
-        simp only [hr] at h
-        cases hs : o.spec c0 with
-        | none => simp [hs] at h
-        | some p =>
-          obtain ⟨c', r'⟩ := p
-          simp only [hs] at h
-          by_cases hrr : r' = r
-          · simp [hrr] at h
-            simp only [commits, List.filterMap_append, List.map_append, List.foldl_append] at h0 ⊢
-            simp [hk, ← h0, applyOp, hs, h]
-          · simp [hrr] at h
+      cases hs : o.spec init with
+      | none => simp [hs, foldl_applyEv_none] at h
+      | some p =>
+        obtain ⟨c', r'⟩ := p
+        simp only [hs] at h
+        by_cases hrr : r' = r
+        · simp only [hrr, if_true] at h
+          have := ih c' c h
+          simp only [commits, List.filterMap_cons, hk, List.map_cons, List.foldl_cons]
+          simpa [applyOp, hs, commits] using this
+        · simp [hrr, foldl_applyEv_none] at h
 
 /-- unpacking `noCommitSince = false`: after thread `t`'s latest logged access another thread committed -/
 theorem noCommitSinceRev_false {w : Width} (t : Nat) : ∀ (l : List (Event w)), noCommitSinceRev t l = false →
